@@ -144,7 +144,8 @@ def universe(draw, kinds=('int', 'str', 'tuple', 'fset', 'mixed', 'obj'), lo=3, 
     return out
 
 
-BASES = [0, 0, 1, -7, -3, 1000, -10 ** 6, 10 ** 9, 2 ** 70]     # -3 / -7 straddle 0, -1, -2; 2**70 is beyond machine words
+# -3 / -7 straddle 0, -1, -2; 2**63 - 4 straddles the signed 64-bit limit, everything at -2**63 - 40 is below it; 2**70 is beyond machine words
+BASES = [0, 0, 0, 1, -7, -3, 1000, -10 ** 6, 10 ** 9, 2 ** 70, 2 ** 63 - 4, -(2 ** 63) - 40]
 
 ATTR_VALUES = st.recursive(
     st.one_of(st.integers(-3, 3), st.sampled_from(['x', 'y', '', 'A']), st.none(), st.booleans()),
@@ -199,7 +200,8 @@ def _span(draw, model, key, base, horizon, want_reject=False, maxlen=4):
 @st.composite
 def history(draw, classes=('DynGraph', 'DynDiGraph'), removal=(True,), kinds=None, max_ops=12,
             min_ops=1, node_kinds=('int', 'str', 'tuple', 'fset', 'mixed', 'obj'), rejects=None,
-            horizon=10, allow_missing_t=False, bases=None, attrs=True, uni=(3, 6), bulk_e=True, maxlen=4, selfloops=True):
+            horizon=10, allow_missing_t=False, bases=None, attrs=True, uni=(3, 6), bulk_e=True, maxlen=4, selfloops=True,
+            shifts=False):
     """Draw a case.  rejects: None = anchors include 'before' (rejections happen naturally),
     False = never generate a span that starts before the latest run."""
     cls = draw(st.sampled_from(classes))
@@ -335,7 +337,36 @@ def history(draw, classes=('DynGraph', 'DynDiGraph'), removal=(True,), kinds=Non
             raise ValueError(kind)
         ops.append(op)
         apply_model(model, dn_nodes, op)
-    return {"cls": cls, "removal": rem, "nodes": nodes, "ops": ops}
+    case = {"cls": cls, "removal": rem, "nodes": nodes, "ops": ops}
+    if shifts:
+        # one history in ten is played 10**4400 instants later / earlier (drive.tshift): Python cannot print such ints
+        sh = draw(st.sampled_from([None] * 9 + ['p4400', 'n4400'] if shifts is True else shifts))
+        if sh:
+            case['tshift'] = sh
+    return case
+
+
+def very_long_cases():
+    """Twelve fixed histories in which one pair collects 70-130 runs (thresholds such as "more than 64 runs"):
+    point runs and short intervals separated by gaps of 1-3 instants, the endpoints flipped now and then, a second
+    pair and the reverse arc interleaved, negative / zero-straddling / huge starts."""
+    out = []
+    for k, (cls, base, nruns) in enumerate([('DynGraph', 0, 70), ('DynDiGraph', 0, 70), ('DynGraph', -150, 90), ('DynDiGraph', -150, 90),
+                                            ('DynGraph', 2 ** 63 - 100, 66), ('DynDiGraph', 2 ** 63 - 100, 66),
+                                            ('DynGraph', 1, 130), ('DynDiGraph', -7, 130), ('DynGraph', -1000, 65), ('DynDiGraph', 10 ** 9, 65),
+                                            ('DynGraph', -3, 72), ('DynDiGraph', 3, 72)]):
+        ops, t = [], base
+        for i in range(nruns):
+            ln = (i * 7 + k) % 4                       # 0: a point run, 1-3: an interval of that many extra instants
+            a, b = (0, 1) if (cls == 'DynDiGraph' or (i + k) % 5) else (1, 0)
+            ops.append(['add', a, b, t, None if ln == 0 else t + ln + 1])
+            if i % 9 == 4:
+                ops.append(['add', 1, 2, t, t + 2])    # a second pair sharing instants
+            if cls == 'DynDiGraph' and i % 6 == 3:
+                ops.append(['add', 1, 0, t + 1, None])  # the reverse arc
+            t += ln + 1 + 1 + (i * 5 + k) % 3          # past the run, then a gap of 1-3 instants
+        out.append({"cls": cls, "removal": True, "nodes": [5, 300, 7], "ops": ops, "verylong": True})
+    return out
 
 
 def tiered(tier, **kw):
